@@ -223,6 +223,7 @@ class Ctx:
                           "-metadir", os.path.join(d, "meta"), "-config", cfg, mod]
             procs.append((si, len(chunk), d, subprocess.Popen(cmd, cwd=d, stdout=subprocess.PIPE, stderr=subprocess.STDOUT, text=True)))
         bad = []
+        pinned = 0
         for si, cnt, d, p in procs:
             try:
                 out, _ = p.communicate(timeout=timeout)
@@ -234,9 +235,12 @@ class Ctx:
             if p.returncode != 0 or not m or "TRACE-CONSUMED %d" % cnt not in out:
                 raise Broken("trace validation failed in %s shard %d (exit %s):\n%s" % (name, si, p.returncode, out[-3000:]))
             idx = json.loads(m.group(1))
+            mp = re.search(r"TRACE-PINNED (\d+)", out)
+            pinned += int(mp.group(1)) if mp else cnt
             for i in idx:
                 bad.append(si * per + i - 1)   # TLC indices are 1-based
         self.validated += n
+        self.nontrivial += pinned
         for i in bad:
             ev = json.loads(lines[i])
             self.failures.append({"family": family, "kind": "event", "payload": lines[i], "site": ev.get("site", "event"),
@@ -247,7 +251,7 @@ class Ctx:
             if len(self.samples) < 12:
                 self.samples.append({"stage": name, "event": json.loads(l)})
         self.stages.append({"stage": name, "kind": "trace-validation", "module": os.path.basename(module_rel), "events": n,
-                            "rejected": len(bad), "shards": len(procs), "wall_s": round(time.time() - t, 1)})
+                            "rejected": len(bad), "pinned": pinned, "shards": len(procs), "wall_s": round(time.time() - t, 1)})
         log("%s: validated %d events, %d rejected in %.1fs" % (name, n, len(bad), time.time() - t))
         return bad
 
